@@ -2,13 +2,13 @@
 C17 — `--strip_uuids` sheets do not depend on the UUIDs in the flow file.
 
 Property theorems only (helper lemmas: `Rpft/Lemmas/Export.lean`, `ExportIds.lean`,
-`ExportDfs.lean`).  The exporter model `Rpft/Export.lean` is polymorphic in the identifier type
+`ExportDfs.lean`, `ExportFuel.lean`).  The exporter model `Rpft/Export.lean` is polymorphic in the identifier type
 `U` (it only ever compares identifiers for equality / tests membership in sets of identifiers);
 all statements are for ALL flows (any graph: joins, cycles, self loops, dangling exits,
 duplicate node ids), unbounded.  Header order (`networkx.topological_sort`), `unparse_row` and
 the file writer are uninterpreted functions of the uuid-free rows.
 -/
-import Rpft.Lemmas.ExportDfs
+import Rpft.Lemmas.ExportFuel
 import Rpft.Gen.Tables
 set_option linter.unusedSimpArgs false
 set_option linter.unusedVariables false
@@ -82,6 +82,16 @@ theorem stripped_rows_U_free (numbered : Bool) :
 /-- The temp ids of the exported rows are pairwise distinct (every flow, any graph). -/
 theorem toRows_temp_ids_nodup (f : FlowX U) (rows : List (RowT U)) (h : toRowsT f = .ok rows) :
     (rows.map (·.id)).Nodup := toRowsT_ids_nodup f rows h
+
+/-- The recursion fuel of the model (`|nodes| + 1`) is never exhausted: every recursive call visits a
+node of the flow that was not visited before (the termination argument of `_to_rows_recurse`). -/
+theorem toRows_fuel_sufficient (f : FlowX U) : toRowsT f ≠ .error .fuel := toRowsT_no_fuel f
+
+/-- The uniqueness counter always finds a free readable name (pigeonhole over `|used| + 1` pairwise
+different candidates `base`, `base.1`, …): the only error the remapping can report is a failed
+lookup. -/
+theorem remap_only_key_error (numbered : Bool) (rows : List (RowT U)) (e : Err)
+    (h : remap numbered rows = .error e) : e = .keyError := remap_error numbered rows e h
 
 /-- With `numbered` the row ids are `1..n` in row order. -/
 theorem numbered_ids (f : FlowX U) (out : List RowS) (h : strippedRows true f = .ok out) :
